@@ -142,6 +142,15 @@ def make_ignore_merge(ep, maxslots=3, props=("C19",), known=()):
             i, p = cells[ci]
             d, s = slots[i]
             files.setdefault(d, {}).setdefault(s, {}).setdefault("Ignore", {})[p] = E.int("v_%s_%s_%s" % (d, s, p[1:]))
+        # one (directory, section) slot may carry an EMPTY 'Ignore' mapping
+        # (a user who cleared their list): it contributes nothing and must
+        # not wipe what other files / sections configure
+        es = E.choice("empty-ignore-slot", len(slots) + 1)
+        if es < len(slots):
+            d, s = slots[es]
+            files.setdefault(d, {}).setdefault(s, {}).setdefault("Ignore", {})
+            E.goal("empty-ignore-mapping-next-to-configured-paths",
+                   files[d][s]["Ignore"] == {} and len(chosen) >= 1)
         saved = install(files)
         try:
             got = nc.build_config(ep)
